@@ -305,6 +305,11 @@ def trace_to_model(evs, meta, x):
             items.append((e.t * 1000, 3, "Send", ("send", e.t, ok)))
         elif e.kind == "api" and e.f[0] == xs and e.f[1] == "consent_lost":
             items.append((e.t * 1000, 3, "RevokeLocal", None))
+    # a check that reaches x in the very millisecond of its own nice_agent_consent_lost() call: the trace does not say which of the two the agent saw
+    # first (the simulator runs an API call before the deliveries due at the same instant, the replay orders them the other way round): out of scope
+    rev = set(i[0] for i in items if i[2] == "RevokeLocal")
+    if any(i[2] == "IncomingCheck true" and i[0] in rev for i in items):
+        return None
     if stop is not None:
         items = [i for i in items if i[0] < stop * 1000]
     # an event without effect at the end of the observation, so that a consent timer due before it is fired
